@@ -550,8 +550,42 @@ AGG = {
 }
 
 
+def _m5_columns(ck: Check) -> None:
+    """summary(): the header 'State order', the space strings and the attractor strings list the variables in one and the
+    same order. The attractor strings print `sorted(state.items())` (order of names), so the header must be sorted names
+    as well -- or everything must run over the same list."""
+    fm = ck.prog.fm(SD_MOD, "SuccessionDiagram.summary")
+    f = fm.f
+    hdr = None
+    for n in own_walk(f.node):
+        if isinstance(n, ast.JoinedStr) and any(isinstance(v, ast.Constant) and "State order" in str(v.value) for v in n.values):
+            for v in n.values:
+                if isinstance(v, ast.FormattedValue) and isinstance(v.value, ast.Call) and callee_name(v.value) == "join" and v.value.args:
+                    hdr = (v.value.args[0], fm.cfgn(n))
+    if hdr is None:
+        raise AnalysisError("anchor vanished: 'State order' header of summary()")
+    ORD, at = hdr
+    ord_v = fm.deref(ORD, at)
+    ord_sorted = isinstance(ord_v, ast.Call) and callee_name(ord_v) == "sorted" and not any(k.arg in ("key", "reverse") for k in ord_v.keywords)
+    probs = []
+    for n in own_walk(f.node):
+        if isinstance(n, (ast.GeneratorExp, ast.ListComp)) and len(n.generators) == 1:
+            it = n.generators[0].iter
+            if isinstance(it, ast.Call) and callee_name(it) == "sorted" and it.args and isinstance(it.args[0], ast.Call) \
+                    and callee_name(it.args[0]) == "items":
+                if not ord_sorted:
+                    probs.append(f"line {n.lineno}: states are printed in the order of the sorted variable names, but the 'State order' "
+                                 f"header lists `{text(ord_v)[:50]}`: for a network whose variables are not declared alphabetically the "
+                                 f"values appear under the wrong names")
+            elif isinstance(it, ast.Call) and callee_name(it) == "items" and not (isinstance(ORD, ast.Name) and False):
+                probs.append(f"line {n.lineno}: states are printed in dictionary order, which is not the order of the header")
+    ck.ob("M5", fm, f.node, not probs, "; ".join(sorted(set(probs))) if probs else
+          "header, spaces and attractor states use one variable order", key="summary columns")
+
+
 def m5(ck: Check) -> None:
     prog = ck.prog
+    _m5_columns(ck)
     for q, acc in AGG.items():
         fm = prog.fm(SD_MOD, q)
         f = fm.f
